@@ -18,7 +18,6 @@ Tie (DESIGN.md 3.2 / section 7 C06):
         model evaluates the same tree with the C07 `Poly` model instantiated at stream coefficients.
 """
 import ast
-import gc
 import re
 import warnings
 from fractions import Fraction
@@ -385,7 +384,6 @@ def impl(c):
                 obs["wrapped"] = wrapped
             obs["n_exec"] = len(captured)
         del filt, res, it
-        gc.collect()
     obs["leaks"] = sum(1 for w in wlist if issubclass(w.category, MemoryLeakWarning))
     return obs
 
